@@ -263,33 +263,57 @@ def rule_S5(ctx: Ctx) -> None:
 
 
 def rule_S6(ctx: Ctx) -> None:
+    from sa.cfg import path_conditions
+
     S = _schema(ctx)
     rule_S3_quiet(S)
     f, nl = S["f"], S["nloop"]
-    gmap, nb, tent = S.get("gmap"), S.get("nb"), S.get("tentative")
+    gmap, nb, tent, opn = S.get("gmap"), S.get("nb"), S.get("tentative"), S["open"]
     if not gmap or not tent:
         ctx.unknown(f, {}, "g map and tentative cost recognised")
         return
-    skips = [n for n in ast.walk(nl) if isinstance(n, ast.If) and any(isinstance(s, ast.Continue) for s in n.body)
-             and (f"{gmap}[" in X.U(n.test) or tent in N.names_in(n.test))]
-    exp = "a known neighbour is skipped only when the new cost is not better: `g_temp >= g[n]` (or `>`); never when it is better"
-    if not skips:
-        # no skip at all: always overwriting is wrong only if it can overwrite a better cost
-        ctx.unknown(f, {"skip_tests": 0}, exp, "no relaxation test found")
+    g = build_cfg(f.node)
+    loop_node = g.node_for(nl)
+    gstores = [n for n in g.nodes if n.ast is not None and n.kind == "stmt" and isinstance(n.ast, ast.Assign) and isinstance(n.ast.targets[0], ast.Subscript)
+               and X.U(n.ast.targets[0].value) == gmap and X.U(n.ast.targets[0].slice) == nb and g.can_reach(loop_node, n)]
+    exp = ("the cost/predecessor of a neighbour that is already in the open set is overwritten only when the new cost is better "
+           "(the store is reached only under `not (g_temp >= g[n])` / `not (g_temp > g[n])`); never when it is worse")
+    if len(gstores) != 1:
+        ctx.unknown(f, {"g_stores_at_neighbor": len(gstores)}, exp)
         return
-    for sk in skips:
-        nf = N.boolean_nf(sk.test)
-        acc = {N.boolean_nf(X.expr_of(f"{tent} >= {gmap}[{nb}]")).key(), N.boolean_nf(X.expr_of(f"{tent} > {gmap}[{nb}]")).key()}
-        ok = isinstance(nf, N.Atom) and nf.key() in acc
-        ctx.judge(f, ok, {"skip_when": N.nf_str(nf), "tentative": tent}, exp,
+    first = [s_ for s_, lab in loop_node.succ if lab == "next"][0]
+    paths = path_conditions(g, first, gstores[0])
+    known_atom = N.boolean_nf(X.expr_of(f"{nb} in {opn}"))
+    better = {N.boolean_nf(X.expr_of(f"{tent} < {gmap}[{nb}]")).key(), N.boolean_nf(X.expr_of(f"{tent} <= {gmap}[{nb}]")).key()}
+    worse = {N.boolean_nf(X.expr_of(f"{tent} >= {gmap}[{nb}]")).key(), N.boolean_nf(X.expr_of(f"{tent} > {gmap}[{nb}]")).key()}
+    n_known = 0
+    verdicts = []
+    for conds in paths:
+        atoms = set()
+        for test, lab in conds:
+            nf = N.boolean_nf(test, neg=(lab is False))
+            for a in (N.nf_atoms(nf) if (isinstance(nf, N.Atom) or nf[0] == "and") else []):
+                atoms.add(a.key())
+        if known_atom.key() in atoms:
+            n_known += 1
+            if atoms & worse:
+                verdicts.append("stores when the new cost is NOT better")
+            elif not (atoms & better):
+                verdicts.append("overwrites a known neighbour without comparing costs")
+    slot = {"paths_to_cost_store": len(paths), "paths_for_known_neighbour": n_known, "problems": sorted(set(verdicts)), "tentative": tent}
+    if n_known == 0:
+        # no path distinguishes known neighbours: every store is unconditional
+        ctx.violation(f, slot, exp, "known neighbours are overwritten unconditionally: a worse route can replace a better one", node=gstores[0].ast)
+    else:
+        ctx.judge(f, not verdicts, slot, exp,
                   "better routes to an open node are discarded (or worse ones kept): on a maze with two routes of different length to a junction "
-                  "the longer one can survive", node=sk)
-    # the skip precedes the stores of source/g/f
-    body = nl.body
-    first_store = min((i for i, s in enumerate(body) if isinstance(s, ast.Assign) and isinstance(s.targets[0], ast.Subscript) and X.U(s.targets[0].slice) == nb), default=None)
-    skip_idx = [i for i, s in enumerate(body) if any(k in list(ast.walk(s)) for k in skips)]
-    ctx.judge(f, first_store is not None and bool(skip_idx) and max(skip_idx) < first_store,
-              {"skip_statement_index": skip_idx, "first_store_index": first_store}, "the relaxation test precedes the stores of predecessor and costs")
+                  "the longer one can survive", node=gstores[0].ast)
+    # all three stores (predecessor, g, f) happen together: same path conditions
+    others = [n for n in g.nodes if n.ast is not None and n.kind == "stmt" and isinstance(n.ast, ast.Assign) and isinstance(n.ast.targets[0], ast.Subscript)
+              and X.U(n.ast.targets[0].slice) == nb and g.can_reach(loop_node, n) and n is not gstores[0]]
+    same = all(g.dominates(gstores[0], o) or g.dominates(o, gstores[0]) for o in others)
+    ctx.judge(f, same and len(others) >= 1, {"other_stores_at_neighbor": [X.U(o.ast)[:60] for o in others], "move_together": same},
+              "predecessor and cost stores for a neighbour are executed together (one dominates the other)")
 
 
 def rule_S7(ctx: Ctx) -> None:
@@ -329,7 +353,7 @@ def rule_S8(ctx: Ctx) -> None:
     ctx.judge(f, ok_init and len(rm) == 1, {"open_init": X.U(init[0].value) if init else None, "removes_popped": len(rm)},
               "the open set starts as {start} and the popped node is removed from it", "the search never terminates / never starts at the start")
     # inside the expansion: predecessor and cost stores
-    stores = {X.U(s.targets[0].value): X.U(s.value) for s in nl.body if isinstance(s, ast.Assign) and isinstance(s.targets[0], ast.Subscript) and X.U(s.targets[0].slice) == nb}
+    stores = {X.U(s.targets[0].value): X.U(s.value) for s in ast.walk(nl) if isinstance(s, ast.Assign) and isinstance(s.targets[0], ast.Subscript) and X.U(s.targets[0].slice) == nb}
     srcs = [k for k, v in stores.items() if v == cur]
     ok = len(srcs) == 1 and gmap in stores and stores[gmap] == tent
     ctx.judge(f, ok, {"stores_at_neighbor": stores}, "per accepted neighbour: predecessor[n] = current, g[n] = tentative cost (and f[n])",
@@ -342,7 +366,8 @@ def rule_S8(ctx: Ctx) -> None:
     ctx.judge(f, len(g0) >= 1, {"g_start_stores": [X.U(s) for s in g0]},
               "the start has an initial cost entry (any constant offset shifts all costs uniformly and preserves their order)")
     # closed set (optional): if present, it is a skip on membership and the popped node is added
-    closed = [n for n in ast.walk(nl) if isinstance(n, ast.If) and " in " in X.U(n.test) and any(isinstance(s, ast.Continue) for s in n.body) and nb in X.U(n.test) and opn not in X.U(n.test)]
+    closed = [n for n in ast.walk(nl) if isinstance(n, ast.If) and " in " in X.U(n.test) and " not in " not in X.U(n.test)
+              and (any(isinstance(s, (ast.Continue, ast.Pass)) for s in n.body)) and nb in X.U(n.test) and opn not in X.U(n.test)]
     if closed:
         cname = X.U(closed[0].test).split(" in ")[-1]
         add = [s for s in lp.body if isinstance(s, ast.Expr) and X.U(s.value) == f"{cname}.add({cur})"]
